@@ -171,6 +171,13 @@ def instances(tier, seed):
                                    Con('<=', X(1) - t, 9, grid='integrator', include_first=False, include_last=False)]
     add(kind='clone', desc=dict(stages=[dict(spec=tpl_q, cfg=cfgs[0], t0=hz[0][0], T=hz[0][1], clone_of='tpl', pvals={}),
                                         dict(spec=stage_model(1), cfg=cfgs[3], t0=hz[2][0], T=hz[2][1], clone_of=None)], coupling=[('cont', 0, 1), ('wge', 0)], parent=[('w2',)]))
+    # a template with grid='inf' constraints, one of them on the derivative of a state (inf_der)
+    from ..dsl import inf_der
+    tpl_inf = stage_model(0)
+    tpl_inf.cons = list(tpl_inf.cons) + [Con('<=', X(0) + X(1), 9, grid='inf'), Con('<=<=', -6, 6, mid=inf_der(X(1)), grid='inf')]
+    for ci_ in (0, 1):
+        add(kind='clone-vs-direct', desc=dict(stages=[dict(spec=tpl_inf, cfg=cfgs[[0, 3][ci_]], t0=hz[[0, 2][ci_]][0], T=hz[[0, 2][ci_]][1], clone_of='tpl', pvals={}),
+                                                      dict(spec=stage_model(1), cfg=cfgs[1], t0=hz[2][0], T=hz[2][1], clone_of=None)], coupling=[('cont', 0, 1), ('wge', 0)], parent=[('w2',)]))
     # seeded random stage contents (model, constraint set, objective, guesses): direct and cloned
     from .. import randspec
     rr = random.Random(seed * 7919 + 1212)
@@ -262,7 +269,40 @@ def ref_all(inst, master, d, mut=None):
     return atoms, obj
 
 
+def run_clone_vs_direct(item):
+    """relational: the OCP whose stages are created from templates and the OCP with the same stages declared directly are two real transcriptions
+    with the same rows, objective and starting point (used where no reference semantics of the content is at hand: grid='inf' certificates)"""
+    desc = item['desc']
+    direct = copy.deepcopy(desc)
+    for sd in direct['stages']:
+        sd['clone_of'] = None
+    tag = '+'.join(s_['cfg'].method for s_ in desc['stages'])
+    extra = lambda b: [b.ocp.value(b.w), b.ocp.value(b.w2), b.ocp.value(b.pa), b.ocp.value(b.pb)]
+    with quiet():
+        mc = build(desc)
+        mc.ocp.solver('ipopt')
+    C_ = Inst(None, None, seed=item.get('seed', 0), built=mc, solver=False, extra_outputs=extra)
+    with quiet():
+        md = build(direct)
+        md.ocp.solver('ipopt')
+    D_ = Inst(None, None, seed=item.get('seed', 0), built=md, solver=False, like=C_, bind=bind_positional(), extra_outputs=extra)
+    ch = Checker(C_)
+    viol = []
+    diffs, npairs = compare_nlps(ch, C_, D_, 'stages from templates', 'stages declared directly')
+    for key, label, detail in diffs:
+        viol.append({'property': PROP, 'key': '%s|clone-vs-direct|%s' % (key, tag), 'label': label, 'detail': detail, 'cfg': tag, 'spec': repr([(s_['spec'].note, s_['clone_of']) for s_ in desc['stages']])})
+    xa, xb = list(C_.nlp.x0()), list(D_.nlp.x0())
+    if len(xa) != len(xb) or not all(close(float(a), float(c)) for a, c in zip(xa, xb)):
+        viol.append({'property': PROP, 'key': 'x0-differs|clone-vs-direct|%s' % tag, 'label': 'x0', 'detail': 'starting point of the cloned stages differs from that of the directly declared ones', 'cfg': tag, 'spec': ''})
+    r = result(C_, ch, {'violations': viol, 'twins_ok': 0, 'twins_bad': 0, 'shape': 'clone-vs-direct|%s' % tag, 'sample': {'kind': 'clone-vs-direct', 'rows': C_.nlp.ng, 'pairs': npairs, 'stages': tag}})
+    if viol:
+        r['status'] = 'violation'
+    return r
+
+
 def run(item):
+    if item['kind'] == 'clone-vs-direct':
+        return run_clone_vs_direct(item)
     desc = item['desc']
     with quiet():
         master = build(desc)
